@@ -1,8 +1,7 @@
-\* thorough: larger constants
-\* patterns, three acceptance classes, six inputs, two coefficient pairs
+\* thorough: every increasing xi sequence over 1..6 of length 1..4 (otherwise as Sesans.cfg)
 SPECIFICATION Spec
 CONSTANTS
-  MaxXi = 7
+  MaxXi = 6
   MaxN = 4
   R = 2
   LamA = 1
